@@ -17,7 +17,11 @@ def obligations(tier):
     return extra + [Ob(f"C14.rerun/{k}", "pre", "c_rerun", {"VF_KIND": i, "VF_NCT": 4 if tier == "quick" else 12}, t, FN_PRE,
                "script with one comment (kind fixed, position and text symbolic) and a last line of 5 kinds (symbolic): parse_data() twice on the "
                "same object - second result equals the first, first result object unchanged")
-            for i, k in enumerate(KINDS)]
+            for i, k in enumerate(KINDS)] + [
+        Ob(f"C14.rerun/{k}/respaced-literals", "pre", "c_rerun", {"VF_KIND": i, "VF_BASE": 2, "VF_NCT": 4 if tier == "quick" else 12}, t, FN_PRE,
+           "as above on a script whose literals contain comma + blank and parentheses (text the spacing rules touch): the second call must not "
+           "re-apply the preparation to text the first call already prepared")
+        for i, k in enumerate(KINDS) if k in ("line_dash", "trail_block", "multi_block")]
 
 
 def solver_queries(tier, scratch):
